@@ -57,9 +57,11 @@ structure T (split : τ → κ) (col : List τ) (s : State κ τ) (e : Env) : Pr
   reg : ∀ p ∈ s.registered, p.2 = col
   runs : RunsOk split col e.outs
   cmp : collectionIsCompleted s = true
+  toReg : ∀ n is, SOut.run n is ∈ e.outs → n ∈ AList.keys s.registered
 
 theorem T.shutdown {split : τ → κ} {col : List τ} {s : State κ τ} {e : Env} (h : T split col s e) (k : Nat) : T split col s (e.shutdown k) :=
-  ⟨h.coll, h.hom, h.reg, runsOk_mono h.runs (fun o ho hr => shutdown_runs e k o ho hr), h.cmp⟩
+  ⟨h.coll, h.hom, h.reg, runsOk_mono h.runs (fun o ho hr => shutdown_runs e k o ho hr), h.cmp,
+    fun n is hm => h.toReg n is (shutdown_runs e k _ hm rfl)⟩
 
 theorem assignWorkUnit_T {split : τ → κ} {col : List τ} {s s' : State κ τ} {e e' : Env} {n : Nat}
     (h : assignWorkUnit s e n = .ok (s', e')) (ht : T split col s e) : T split col s' e' := by
@@ -77,15 +79,26 @@ theorem assignWorkUnit_T {split : τ → κ} {col : List τ} {s s' : State κ τ
     obtain ⟨e1, _, h⟩ := bind_ok.1 h
     simp only [Except.ok.injEq, Prod.mk.injEq] at h
     obtain ⟨hs', _⟩ := h
-    refine ⟨by rw [← hs']; exact ht.coll, hhom', by rw [← hs']; exact ht.reg, ?_, by rw [← hs']; exact ht.cmp⟩
-    intro o hm hr
-    rcases sendRun_outs hsend with ho | ho
-    · rw [ho] at hm; exact ht.runs o hm hr
-    · rw [ho] at hm
-      rcases List.mem_append.1 hm with hm | hm
-      · exact ht.runs o hm hr
-      · simp only [List.mem_singleton] at hm
-        exact ⟨n, is, hm, scope, hone⟩
+    refine ⟨by rw [← hs']; exact ht.coll, hhom', by rw [← hs']; exact ht.reg, ?_, by rw [← hs']; exact ht.cmp, ?_⟩
+    · intro o hm hr
+      rcases sendRun_outs hsend with ho | ho
+      · rw [ho] at hm; exact ht.runs o hm hr
+      · rw [ho] at hm
+        rcases List.mem_append.1 hm with hm | hm
+        · exact ht.runs o hm hr
+        · simp only [List.mem_singleton] at hm
+          exact ⟨n, is, hm, scope, hone⟩
+    · intro m js hm
+      rw [← hs']
+      show m ∈ AList.keys s.registered
+      rcases sendRun_outs hsend with ho | ho
+      · rw [ho] at hm; exact ht.toReg m js hm
+      · rw [ho] at hm
+        rcases List.mem_append.1 hm with hm | hm
+        · exact ht.toReg m js hm
+        · simp only [List.mem_singleton, SOut.run.injEq] at hm
+          rw [hm.1]
+          exact (AList.lookup_isSome_iff_mem_keys _ _).1 (by rw [hreg]; rfl)
 
 theorem topUp_T {split : τ → κ} {col : List τ} {n : Nat} (fuel : Nat) : ∀ {s s' : State κ τ} {e e' : Env},
     topUp s e n fuel = .ok (s', e') → T split col s e → T split col s' e' := by
@@ -161,7 +174,8 @@ theorem dropExtra_T {split : τ → κ} {col : List τ} (k : Nat) : ∀ {s s' : 
     split at h
     · cases h
     · rename_i n0 _ _
-      refine ih h ⟨hi.coll, ⟨hi.hom.1, fun a ha => hi.hom.2 a (List.dropLast_subset _ ha)⟩, hi.reg, ?_, hi.cmp⟩
+      refine ih h ⟨hi.coll, ⟨hi.hom.1, fun a ha => hi.hom.2 a (List.dropLast_subset _ ha)⟩, hi.reg, ?_, hi.cmp,
+        fun n is hm => hi.toReg n is (shutdown_runs e _ _ hm rfl)⟩
       exact runsOk_mono hi.runs (fun o ho hr => shutdown_runs e _ o ho hr)
 
 /-! ### the invariant of every scheduler call -/
@@ -175,9 +189,10 @@ structure WI (split : τ → κ) (s : State κ τ) (e : Env) : Prop where
   agreed : ∀ col, s.collection = some col → (∀ p ∈ s.registered, p.2 = col) ∧ RunsOk split col e.outs
   quiet : s.collection = none → ∀ o ∈ e.outs, isRun o = false
   cmp : s.collection ≠ none → collectionIsCompleted s = true
+  toReg : ∀ n is, SOut.run n is ∈ e.outs → n ∈ AList.keys s.registered
 
 theorem WI.toT {split : τ → κ} {s : State κ τ} {e : Env} {col : List τ} (h : WI split s e) (hc : s.collection = some col) : T split col s e :=
-  ⟨hc, h.hom, (h.agreed col hc).1, (h.agreed col hc).2, h.cmp (by rw [hc]; simp)⟩
+  ⟨hc, h.hom, (h.agreed col hc).1, (h.agreed col hc).2, h.cmp (by rw [hc]; simp), h.toReg⟩
 
 theorem length_le_set' {α β : Type} [DecidableEq α] (d : AList α β) (x : α) (v : β) : d.length ≤ (AList.set d x v).length := by
   induction d with
@@ -196,7 +211,7 @@ theorem step_wi (split : τ → κ) {s s' : State κ τ} {e e' : Env} {op : SOp 
   -- from the post-state facts of the loops
   have fromT : ∀ {col : List τ}, T split col s' e' → WI split s' e' := by
     intro col ht
-    refine ⟨hhom', hdi', ?_, ?_, fun _ => ht.cmp⟩
+    refine ⟨hhom', hdi', ?_, ?_, fun _ => ht.cmp, ht.toReg⟩
     · intro c hc
       rw [ht.coll] at hc
       simp only [Option.some.injEq] at hc
@@ -212,7 +227,7 @@ theorem step_wi (split : τ → κ) {s s' : State κ τ} {e e' : Env} {op : SOp 
     split at h1
     · cases h1
     · simp only [Except.ok.injEq] at h1; subst h1
-      exact ⟨hhom', hdi', hi.agreed, hi.quiet, hi.cmp⟩
+      exact ⟨hhom', hdi', hi.agreed, hi.quiet, hi.cmp, hi.toReg⟩
   | addNodeCollection n c =>
     simp only [step] at h
     obtain ⟨s1, h1, h2⟩ := map_ok.1 h
@@ -232,7 +247,7 @@ theorem step_wi (split : τ → κ) {s s' : State κ τ} {e e' : Env} {op : SOp 
             · rename_i hc
               simp only [ne_eq, Decidable.not_not] at hc
               simp only [Except.ok.injEq] at h1; subst h1
-              refine ⟨hhom', hdi', ?_, hi.quiet, ?_⟩
+              refine ⟨hhom', hdi', ?_, hi.quiet, ?_, fun m js hm => (AList.mem_keys_set _ _ _ _).2 (Or.inr (hi.toReg m js hm))⟩
               · intro c' hc'
                 have hc'' : s.collection = some c' := hc'
                 obtain ⟨a1, a2⟩ := hi.agreed c' hc''
@@ -254,7 +269,7 @@ theorem step_wi (split : τ → κ) {s s' : State κ τ} {e e' : Env} {op : SOp 
           cases hc : s.collection with
           | none => rfl
           | some c0 => exact absurd (hi.cmp (by rw [hc]; simp)) hcmp
-        refine ⟨hhom', hdi', ?_, hi.quiet, ?_⟩
+        refine ⟨hhom', hdi', ?_, hi.quiet, ?_, fun m js hm => (AList.mem_keys_set _ _ _ _).2 (Or.inr (hi.toReg m js hm))⟩
         · intro c' hc'
           have hc'' : s.collection = some c' := hc'
           rw [hnone] at hc''; cases hc''
@@ -279,7 +294,7 @@ theorem step_wi (split : τ → κ) {s s' : State κ τ} {e e' : Env} {op : SOp 
           simp only at h1
           split at h1
           · simp only [Except.ok.injEq, Prod.mk.injEq] at h1; obtain ⟨rfl, rfl⟩ := h1
-            refine ⟨hhom', hdi', ?_, ?_, hi.cmp⟩
+            refine ⟨hhom', hdi', ?_, ?_, hi.cmp, ?_⟩
             · intro c hc
               have hc' : s.collection = some c := hc
               rw [hc0] at hc'; cases hc'
@@ -289,6 +304,12 @@ theorem step_wi (split : τ → κ) {s s' : State κ τ} {e e' : Env} {op : SOp 
               · unfold collectionDiffs at hm
                 obtain ⟨p, _, hp⟩ := List.mem_map.1 hm
                 rw [← hp]; rfl
+            · intro m js hm
+              rcases List.mem_append.1 hm with hm | hm
+              · exact hi.toReg m js hm
+              · unfold collectionDiffs at hm
+                obtain ⟨p, _, hp⟩ := List.mem_map.1 hm
+                cases hp
           · rename_i hde
             have hdnil : collectionDiffs first col rest = [] := by simpa using hde
             have hregall : ∀ p ∈ s.registered, p.2 = col := by
@@ -304,20 +325,25 @@ theorem step_wi (split : τ → κ) {s s' : State κ τ} {e e' : Env} {op : SOp 
               intro o hm hr
               rw [hdnil, List.append_nil] at hm
               rw [hi.quiet hc0 o hm] at hr; cases hr
+            have htr : ∀ n is, SOut.run n is ∈ e.outs ++ collectionDiffs first col rest → n ∈ AList.keys s.registered := by
+              intro n is hm
+              rw [hdnil, List.append_nil] at hm
+              exact hi.toReg n is hm
             split at h1
             · simp only [Except.ok.injEq, Prod.mk.injEq] at h1; obtain ⟨rfl, rfl⟩ := h1
-              exact fromT (col := col) ⟨rfl, hi.hom, hregall, hq, hcmp'⟩
+              exact fromT (col := col) ⟨rfl, hi.hom, hregall, hq, hcmp', htr⟩
             · obtain ⟨⟨s3, e3⟩, h3, h1⟩ := bind_ok.1 h1
               obtain ⟨⟨s4, e4⟩, h4, h1⟩ := bind_ok.1 h1
               obtain ⟨⟨s5, e5⟩, h5, h1⟩ := bind_ok.1 h1
               have hu : HomW split (sortBySize (buildUnits split [] col)) :=
                 homW_sub (homW_buildUnits split col (homW_nil split)) (fun p hp => mem_sortBySize.1 hp)
               have h2 : T split col ({ s with collection := some col, workqueue := AList.update s.workqueue (sortBySize (buildUnits split [] col)) } : State κ τ) ({ e with outs := e.outs ++ collectionDiffs first col rest } : Env) :=
-                ⟨rfl, ⟨homW_update _ hi.hom.1 hu, hi.hom.2⟩, hregall, hq, hcmp'⟩
+                ⟨rfl, ⟨homW_update _ hi.hom.1 hu, hi.hom.2⟩, hregall, hq, hcmp', htr⟩
               have t5 := rescheduleAll_T _ h5 (assignAll_T _ h4 (dropExtra_T _ h3 h2))
               split at h1
               · simp only [Except.ok.injEq, Prod.mk.injEq] at h1; obtain ⟨rfl, rfl⟩ := h1
-                exact fromT ⟨t5.coll, t5.hom, t5.reg, runsOk_mono t5.runs (fun o ho hr => shutdownAll_runs _ _ o ho hr), t5.cmp⟩
+                exact fromT ⟨t5.coll, t5.hom, t5.reg, runsOk_mono t5.runs (fun o ho hr => shutdownAll_runs _ _ o ho hr), t5.cmp,
+                  fun n is hm => t5.toReg n is (shutdownAll_runs _ _ _ hm rfl)⟩
               · simp only [Except.ok.injEq, Prod.mk.injEq] at h1; obtain ⟨rfl, rfl⟩ := h1
                 exact fromT t5
   | markComplete n i slow =>
@@ -343,7 +369,7 @@ theorem step_wi (split : τ → κ) {s s' : State κ τ} {e e' : Env} {op : SOp 
         have ht := hi.toT hc
         have hw' := hi.hom.2 _ hwm
         have hmid : T split col ({ s with assigned := AList.set s.assigned n (AList.set w (split t) (AList.set wu t true)) } : State κ τ) e := by
-          refine ⟨hc, ⟨hi.hom.1, ?_⟩, ht.reg, ht.runs, ht.cmp⟩
+          refine ⟨hc, ⟨hi.hom.1, ?_⟩, ht.reg, ht.runs, ht.cmp, ht.toReg⟩
           intro a ha
           rcases mem_set' ha with ha | ha
           · exact hi.hom.2 a ha
@@ -363,7 +389,7 @@ theorem step_wi (split : τ → κ) {s s' : State κ τ} {e e' : Env} {op : SOp 
     simp only at h
     split at h
     · simp only [Except.ok.injEq, Prod.mk.injEq] at h; obtain ⟨rfl, rfl, _⟩ := h
-      exact ⟨hhom', hdi', hi.agreed, hi.quiet, hi.cmp⟩
+      exact ⟨hhom', hdi', hi.agreed, hi.quiet, hi.cmp, hi.toReg⟩
     · rename_i hpend
       cases hc : s.collection with
       | none =>
@@ -380,7 +406,7 @@ theorem step_wi (split : τ → κ) {s s' : State κ τ} {e e' : Env} {op : SOp 
           obtain ⟨⟨s3, e3⟩, h3, h⟩ := bind_ok.1 h
           simp only [Except.ok.injEq, Prod.mk.injEq] at h
           obtain ⟨rfl, rfl, _⟩ := h
-          refine fromT (rescheduleAll_T _ h3 ⟨hc, ⟨?_, hasg'⟩, ht.reg, ht.runs, ht.cmp⟩)
+          refine fromT (rescheduleAll_T _ h3 ⟨hc, ⟨?_, hasg'⟩, ht.reg, ht.runs, ht.cmp, ht.toReg⟩)
           apply homW_update _ hi.hom.1
           obtain ⟨wu0, b0, hm1, hm2⟩ := firstPending_mem hfp
           have hitem : split item = scope := hwl _ hm1 _ hm2
